@@ -345,6 +345,20 @@ theorem tcp_stream_table_partial (t : TcpTable) (K L G X : Addr) (hk : K ≠ L)
   simp only [decide_eq_true_eq] at this
   simp [this]
 
+/-- **nudge_needs_known_peer** (holds since the `fix:` commit "nudge_passive_tcp_nomination honours only a TCP
+connection whose peer is a remote candidate"; before, a bare TCP connect followed by the nudge completed
+nomination and published the stranger's connection): whatever connections strangers have opened — the table is
+written on accept, before authentication — the nudge changes nothing unless some registered connection's peer is
+a remote candidate; and connections accepted from addresses that are no remote candidate never change its result. -/
+theorem nudge_needs_known_peer (s : St) (t : TcpTable)
+    (h : ∀ e ∈ t, s.remotes.any (fun c => c.address = e.2) = false) : nudge s t = s := by
+  unfold nudge
+  split
+  · rfl
+  · have : t.find? (fun e => s.remotes.any (fun c => c.address = e.2)) = none :=
+      List.find?_eq_none.mpr (fun e he => by simp [h e he])
+    rw [this]
+
 /-- the credential check is sound: it accepts only datagrams whose FIRST USERNAME is `<ufrag>:…` and whose FIRST
 MESSAGE-INTEGRITY is the HMAC under the local password (`Credentials`; see its comment for the one respect
 in which this is weaker than RFC 8445 §7.3: USERNAME need not precede MESSAGE-INTEGRITY) -/
@@ -473,14 +487,32 @@ def fresh (role : Role) (st : IceState) (webrtc : Bool) : St :=
 def stranger : Addr := .v4 [203, 0, 113, 66] 6666
 def unauth (uc : Bool) : Req := { tx := [0, 1, 2, 3, 4, 5, 6, 7, 8, 9, 10, 11], useCandidate := uc, accepted := false }
 
-/-- **stranger_use_candidate_connects** — the defect as found (every mode), now only outside WebRTC mode:
-a controlled agent in state New receives ONE request without credentials carrying USE-CANDIDATE from an
-address it has never heard of ⇒ remote candidate added, pair selected, nomination complete, Connected. -/
-theorem legacy_stranger_use_candidate_connects :
+/-- outside WebRTC mode (RTP / SRTP modes answer and learn from unauthenticated probes by design) a credential-less
+USE-CANDIDATE request from a stranger still adds a peer-reflexive candidate, but — since the `fix:` commit "a STUN
+nomination (USE-CANDIDATE) is honoured only when the request carries our ufrag and a valid MESSAGE-INTEGRITY, in every
+transport mode" — it no longer selects a pair, completes nomination or moves the state (before that commit the same
+datagram ended Connected: the defect as found in round 1, every mode). -/
+theorem legacy_stranger_use_candidate_only_learns :
     let s' := (step (fresh .controlled .new false) (.udp (loopback 5000)) stranger (.request (unauth true))).1
     s'.remotes = [prflxCand (.udp (loopback 5000)) stranger] ∧
-    s'.selected = some ⟨hostCand (loopback 5000), prflxCand (.udp (loopback 5000)) stranger⟩ ∧
-    s'.nominated = some true ∧ s'.state = .connected := by decide
+    s'.selected = none ∧ s'.nominated = none ∧ s'.state = .new := by decide
+
+/-- **nomination_needs_credentials** (every transport mode): a request that does not pass the credential check, on any
+socket other than an accepted TCP stream, never completes nomination and never changes the transport state, whatever
+the mode, role, state and source. (On an accepted TCP stream `complete_controlled_inbound_tcp_nomination` still runs
+for unauthenticated requests outside WebRTC mode — by design of those modes, not covered here.) -/
+theorem nomination_needs_credentials (s : St) (sock : Sock) (src : Addr) (r : Req)
+    (hr : r.accepted = false) (hs : sock.isTcpStream = false) :
+    (step s sock src (.request r)).1.nominated = s.nominated ∧ (step s sock src (.request r)).1.state = s.state := by
+  by_cases hw : s.webrtc = true
+  · rw [unauth_request_inert_step s sock src r hw hr]; exact ⟨rfl, rfl⟩
+  · have hauth : handleRequest s sock src r = handleAuthenticated { s with lastRx := s.now } sock src r :=
+      handleRequest_auth s sock src r (Or.inl (by simpa using hw))
+    simp only [step, hauth, handleAuthenticated, hr, Bool.and_false, Bool.false_eq_true, ↓reduceIte]
+    have ht : ∀ x : St, tcpNominate x sock src = x := by
+      intro x; unfold tcpNominate; simp [hs]
+    rw [ht]
+    simp
 
 /-- the same datagram in WebRTC mode is inert (the repaired behaviour, concrete instance) -/
 theorem webrtc_stranger_use_candidate_inert :
